@@ -749,24 +749,26 @@ pub fn exec<S: MdkStorageProvider>(s: &S, t: &[&str]) -> String {
 }
 
 /// profile `lru`: a `save_message` that pushed a message out of its group's map (per-group cap) answers
-/// `ok ev:<id>` — the victim among several oldest messages is the map's choice, observed here by listing the
-/// group before and after (both listings only `peek`)
+/// `ok ev:<id>` — observed here by listing the group before and after (both listings only `peek`)
 pub fn exec_lru<S: MdkStorageProvider>(s: &S, t: &[&str]) -> String {
     if t[0] != "save_message" {
         return exec(s, t);
     }
     let gid = mk_gid(u(t[2]));
-    let ids = |s: &S| -> Vec<(u64, u64)> {
-        s.messages(&gid, Some(Pagination::new(Some(10000), Some(0)))).map(|l| l.iter().map(|m| (eid_num(&m.id), m.created_at.as_secs())).collect()).unwrap_or_default()
+    let ids = |s: &S| -> Vec<(u64, u64, u64)> {
+        s.messages(&gid, Some(Pagination::new(Some(10000), Some(0))))
+            .map(|l| l.iter().map(|m| (m.created_at.as_secs(), m.processed_at.as_secs(), eid_num(&m.id))).collect())
+            .unwrap_or_default()
     };
     let before = ids(s);
     let r = exec(s, t);
     let after = ids(s);
-    let oldest = before.iter().map(|x| x.1).min().unwrap_or(0);
-    let gone: Vec<(u64, u64)> = before.into_iter().filter(|i| !after.iter().any(|a| a.0 == i.0)).collect();
+    // oracle on the implementation alone: the victim of the per-group cap must be THE last message of the default
+    // listing order, i.e. the minimum of (created_at, processed_at, id) among the messages held before the call
+    let last = before.iter().min().cloned();
+    let gone: Vec<(u64, u64, u64)> = before.into_iter().filter(|i| !after.iter().any(|a| a.2 == i.2)).collect();
     match gone.first() {
-        // oracle on the implementation alone: the victim of the per-group cap must be one of the oldest messages
-        Some((v, c)) if r == "ok" => format!("ok ev:{v}{}", if *c == oldest && gone.len() == 1 { "" } else { "!not-the-oldest" }),
+        Some(v) if r == "ok" => format!("ok ev:{}{}", v.2, if Some(*v) == last && gone.len() == 1 { "" } else { "!not-the-last-of-the-default-order" }),
         _ => r,
     }
 }
